@@ -71,7 +71,9 @@ func (fc *FuncCtx) execInstr(ins ssa.Instruction, st *State, reach string) {
 		fc.oblige(fmt.Sprintf("makeslice#%d/len", fc.ord("makeslice")), "index", reach, "(and (<= 0 "+ln+") (<= "+ln+" "+cp+"))", x.Pos(), "make: 0 <= len <= cap")
 		ek := fc.elemComp(et)
 		r := fc.allocRef(st)
-		fc.set(st, ek, "(store "+fc.get(st, ek)+" "+r+" ((as const (Array Int "+fc.S.SortOf(et)+")) "+fc.S.Zero(et)+"))")
+		e0 := fc.get(st, ek)
+		fc.set(st, ek, "(store "+e0+" "+r+" ((as const (Array Int "+fc.S.SortOf(et)+")) "+fc.S.Zero(et)+"))")
+		fc.atFrame(et, e0, fc.get(st, ek), func(b, ix string) string { return "(= " + b + " " + r + ")" })
 		fc.vals[x] = Val{T: fc.define("Slice", "(mk-slice "+r+" 0 "+ln+" "+cp+")", x.Name()), Ty: x.Type()}
 	case *ssa.MakeMap:
 		mt := x.Type().Underlying().(*types.Map)
@@ -156,7 +158,9 @@ func (fc *FuncCtx) execAlloc(x *ssa.Alloc, st *State, reach string) {
 		// arrays live in the element heap; the pointer is the base reference
 		ek := fc.elemComp(arr.Elem())
 		r := fc.allocRef(st)
-		fc.set(st, ek, "(store "+fc.get(st, ek)+" "+r+" ((as const (Array Int "+fc.S.SortOf(arr.Elem())+")) "+fc.S.Zero(arr.Elem())+"))")
+		e0 := fc.get(st, ek)
+		fc.set(st, ek, "(store "+e0+" "+r+" ((as const (Array Int "+fc.S.SortOf(arr.Elem())+")) "+fc.S.Zero(arr.Elem())+"))")
+		fc.atFrame(arr.Elem(), e0, fc.get(st, ek), func(b, ix string) string { return "(= " + b + " " + r + ")" })
 		fc.vals[x] = Val{T: r, Ty: x.Type()}
 		return
 	}
@@ -294,7 +298,7 @@ func (fc *FuncCtx) execIndexAddr(x *ssa.IndexAddr, st *State, reach string) {
 	case *types.Slice:
 		s := base.T
 		fc.oblige(fmt.Sprintf("index#%d/inbounds", fc.ord("index")), "index", reach, "(and (<= 0 "+idx.T+") (< "+idx.T+" (s-len "+s+")))", x.Pos(), "slice index in range")
-		fc.vals[x] = Val{Ty: x.Type(), LV: &LValue{Kind: lvElem, Base: "(s-base " + s + ")", Idx: fc.define("Int", "(+ (s-off "+s+") "+idx.T+")", "ix"), ElemTy: u.Elem(), RootTy: u.Elem(), Ty: u.Elem()}}
+		fc.vals[x] = Val{Ty: x.Type(), LV: &LValue{Kind: lvElem, Base: "(s-base " + s + ")", Idx: fc.define("Int", "(+ (s-off "+s+") "+idx.T+")", "ix"), ElemTy: u.Elem(), RootTy: u.Elem(), Ty: u.Elem(), SliceT: s, SliceI: idx.T}}
 	case *types.Pointer:
 		arr := u.Elem().Underlying().(*types.Array)
 		fc.oblige(fmt.Sprintf("index#%d/inbounds", fc.ord("index")), "index", reach, fmt.Sprintf("(and (<= 0 %s) (< %s %d))", idx.T, idx.T, arr.Len()), x.Pos(), "array index in range")
